@@ -363,6 +363,20 @@ func c04JSONSeeds(quick bool) (map[string][][]byte, [][]byte) {
 			add("odd", []byte(doc))
 		}
 	}
+	// the same values of the wrong kind (and objects that decode to nothing) INSIDE the nested structures, where their members are read
+	oddNested := append(append([]string{}, odd[:19]...), `{"id":""}`, `{"foo":1}`, `{"type":"Owner","id":"https://example.com/x"}`, `{"type":"Person"}`, `[{}]`, `{"id":"https://example.com/x"}`)
+	for _, host := range []struct{ term, typ, st string }{{"publicKey", "Person", "PublicKey"}, {"endpoints", "Service", "Endpoints"}, {"source", "Note", "Source"}} {
+		for _, n := range universe.Nested {
+			if n.Name != host.st {
+				continue
+			}
+			for _, f := range n.Fields {
+				for _, v := range oddNested {
+					add("odd-nested", []byte(fmt.Sprintf(`{"id":"https://example.com/1","type":%q,%q:{%q:%s}}`, host.typ, host.term, f.Term, v)))
+				}
+			}
+		}
+	}
 	return byOwner, all
 }
 
